@@ -112,6 +112,15 @@ func (o *orch) runJob(j *job) {
 	c.Count("emulation_self_stable", 1)
 	held := true
 	for _, ts := range j.timing {
+		if j.scope == "seeded" && j.prog != nil {
+			o.mu.Lock()
+			_, open := o.disabled[j.pair.Arch+"/"+j.pair.GPU]["vgpr_pressure"]
+			o.mu.Unlock()
+			if open && vgprOverflowRisk(*j.prog, ts) {
+				c.Count("runs_skipped_for_open_vgpr_window_overflow", 1)
+				continue
+			}
+		}
 		held = o.compareOn(j, e1.res, ts) && held
 	}
 	// probabilistic reproducers: alternates are tried while the probe holds
@@ -435,6 +444,13 @@ func (o *orch) keyFor(j *job, ts PlatSpec, variant, diff string, t, tfRun runOut
 		wit["first_divergence"] = fd
 	}
 	feature := strings.TrimPrefix(j.scope, "probe:")
+	// ---- white-box flag: a wavefront's VGPRs do not fit the per-lane window
+	for _, f := range append(append([]string{}, t.flags...), tfRun.flags...) {
+		if strings.HasPrefix(f, "vgpr-window-overflow") {
+			wit["vgpr_window_overflow"] = f
+			return prefix + "|vgpr-window-overflow", "co-resident wavefronts corrupt each other's vector registers: the dispatcher places a wavefront so that its VGPRs exceed the per-lane window of cu.SimpleRegisterFile (1024 bytes = 256 registers per lane) and alias the next lane's registers of other wavefronts; observed as: " + diff + " (" + f + ")"
+		}
+	}
 	// ---- initial register state (dispatcher)
 	if fd.Found && strings.HasPrefix(fd.What, "initial-register:") {
 		reg := strings.TrimPrefix(fd.What, "initial-register:")
@@ -455,9 +471,8 @@ func (o *orch) keyFor(j *job, ts PlatSpec, variant, diff string, t, tfRun runOut
 	if t.res == nil {
 		k := prefix + "|timing-crash|" + t.crash
 		w := "program runs in emulation and crashes the timing platform: " + t.crash
-		if len(tfRun.suspects) == 1 {
-			k += "|" + tfRun.suspects[0]
-			w += "; the only issued instruction whose opcode never completed anywhere: " + tfRun.suspects[0]
+		if len(tfRun.suspects) > 0 {
+			w += "; issued instructions whose opcode completed nowhere before the crash: " + strings.Join(tfRun.suspects, ", ")
 		}
 		wit["instructions_in_flight_at_crash"] = tfRun.inflight
 		return k, w
